@@ -459,6 +459,7 @@ Compare(D, L, ver) ==
 (* expressible" (not a wire defect; reported as drift) | "malformed" |     *)
 (* "mismatch" (violations).                                                *)
 (***************************************************************************)
+Unzipped(rec) == "unz" \in DOMAIN rec
 Verdict(rec, opt) ==
   LET ver == rec.v
       inx == Inexpressible(rec, ver)
@@ -466,11 +467,22 @@ Verdict(rec, opt) ==
   IF rec.err # "" THEN [class |-> IF inx = {} THEN "refused-expressible" ELSE "refused", why |-> "", layout |-> ""]
   \* the caller was told the request went out (no error) but nothing was written
   ELSE IF rec.bytes = <<>> THEN [class |-> "mismatch", why |-> "nothing-sent-and-no-error", layout |-> ""]
+  \* a body compressed with a real algorithm (field `unz`: the body as decompressed by the
+  \* harness's trusted decompressor, `unzok` = 0 if that failed): header and length are judged on
+  \* the frame as sent, the body on the decompressed bytes
+  ELSE IF Unzipped(rec) /\ Len(rec.bytes) >= HeaderSize(ver) /\ Bit(rec.bytes[2], 1)
+          /\ RdInt(rec.bytes, HeaderSize(ver) - 3, Len(rec.bytes)).v # Len(rec.bytes) - HeaderSize(ver)
+       THEN [class |-> "malformed", why |-> "header-length-differs-from-body", layout |-> ""]
+  ELSE IF Unzipped(rec) /\ Len(rec.bytes) >= HeaderSize(ver) /\ Bit(rec.bytes[2], 1) /\ rec.unzok = 0
+       THEN [class |-> "malformed", why |-> "compressed-body-does-not-decompress", layout |-> ""]
   ELSE
-  LET D1 == DecodeRequest(rec.bytes, ver, [opt EXCEPT !.mid = FALSE])
+  LET wire == IF Unzipped(rec) /\ Len(rec.bytes) >= HeaderSize(ver) /\ Bit(rec.bytes[2], 1)
+              THEN SubSeq(rec.bytes, 1, HeaderSize(ver) - 4) \o EInt(Len(opt.cmark) + Len(rec.unz)) \o opt.cmark \o rec.unz
+              ELSE rec.bytes
+      D1 == DecodeRequest(wire, ver, [opt EXCEPT !.mid = FALSE])
       c1 == IF D1.ok THEN Compare(D1.r, rec, ver) ELSE D1.why
       try2 == ver = 5 /\ rec.kind = "EXECUTE" /\ c1 # "ok"
-      D2 == IF try2 THEN DecodeRequest(rec.bytes, ver, [opt EXCEPT !.mid = TRUE]) ELSE D1
+      D2 == IF try2 THEN DecodeRequest(wire, ver, [opt EXCEPT !.mid = TRUE]) ELSE D1
       c2 == IF try2 THEN (IF D2.ok THEN Compare(D2.r, rec, ver) ELSE D2.why) ELSE c1
       layout == IF ver = 5 /\ rec.kind = "EXECUTE" THEN (IF c1 = "ok" THEN "v5-execute-without-result-metadata-id"
                                                          ELSE IF c2 = "ok" THEN "v5-execute-with-result-metadata-id" ELSE "")
